@@ -131,6 +131,17 @@ func TestC01(t *testing.T) {
 			if err == nil && addr != nil && !o.AddrTypedNil {
 				o.Protocol = string(cl.Protocol())
 				o.Version = cl.NegotiatedVersion()
+				// what the client remembers: a second Start and the reattach config name the same address
+				if a2, err2 := cl.Start(); err2 != nil || a2 == nil {
+					o.Addr2 = []byte("error: " + errStr(err2))
+				} else {
+					o.Addr2 = []byte(a2.Network() + " " + a2.String())
+				}
+				if sr == nil {
+					if rc := cl.ReattachConfig(); rc != nil && rc.Addr != nil {
+						o.AddrRC = []byte(rc.Addr.Network() + " " + rc.Addr.String())
+					}
+				}
 			}
 		})
 		o.Returned, o.ElapsedMs, o.Dump = ok, el.Milliseconds(), dump
